@@ -233,22 +233,21 @@ fn statement(t: &mut Tape) -> (u8, String) {
         s.push_str(text::ps(t, &["/// doc [Foo]\n", "// comment\n", "#[rust(impl_copy)]\n", "//! inner\n", "#![x]\n"]));
     }
     let body = |t: &mut Tape, right: &[&'static str], fallbacks: &[&'static str]| {
-        let mut b = String::new();
         let n = t.below(5);
-        for _ in 0..n {
-            b.push_str("    ");
-            b.push_str(member(t, right));
-            b.push('\n');
-        }
-        if t.chance(60) {
-            b.push_str("    ");
-            b.push_str(member(t, fallbacks));
-            b.push('\n');
-            if fallbacks.len() > 1 && t.chance(80) {
-                b.push_str("    ");
-                b.push_str(member(t, fallbacks));
-                b.push('\n');
+        let mut items: Vec<&'static str> = (0..n).map(|_| member(t, right)).collect();
+        if t.chance(90) {
+            // fallbacks belong at the end; one time in four they are put somewhere else
+            let at = if t.below(4) == 0 { t.below(items.len() + 1) } else { items.len() };
+            items.insert(at, member(t, fallbacks));
+            if fallbacks.len() > 1 && t.chance(100) {
+                items.insert(at + 1, member(t, fallbacks));
             }
+        }
+        let mut b = String::new();
+        for i in items {
+            b.push_str("    ");
+            b.push_str(i);
+            b.push('\n');
         }
         b
     };
